@@ -476,10 +476,13 @@ func (s *syncer) newOutput() (*RedisOutput, error) {
 			s.logger.Errorf("%s", err.Error())
 			return nil, errors.Join(ErrQuit, err)
 		}
-		err = s.updateCheckpoint(wait, localCheckpoint, []string{id1, id2})
+		filedUnder, err := s.updateCheckpoint(wait, localCheckpoint, []string{id1, id2})
 		if err != nil {
 			return nil, errors.Join(ErrRestart, err)
 		}
+		// the output starts under the id its position is filed with : SetRunId relabels it
+		// once the source has accepted that position (+CONTINUE)
+		outputCfg.RunId = filedUnder
 		outputCfg.CheckpointName = localCheckpoint
 		if needsBisyncNamespace {
 			s.logger.Debugf("bisync checkpoint namespace : runid(%s), cpName(%s), redis(%v)", id1, localCheckpoint, s.cfg.Input.Addresses)
@@ -886,20 +889,37 @@ func deleteBisyncKeysInChunks(cli client.Redis, keys []string, chunkSize int) er
 	return errors.Join(errs...)
 }
 
-func (s *syncer) updateCheckpoint(wait usync.WaitCloser, localCheckpoint string, ids []string) error {
-	return util.RetryLinearJitter(wait.Context(), func() error {
+// updateCheckpoint moves the stored checkpoint to the name localCheckpoint and returns the run id it
+// is filed under. A position filed under the source's previous replication id keeps that id : under
+// it the source checks a PSYNC against its second_replid_offset, under its current id it does not,
+// so relabelling before the source has been asked would turn a position of the other history
+// into an accepted one.
+func (s *syncer) updateCheckpoint(wait usync.WaitCloser, localCheckpoint string, ids []string) (filedUnder string, err error) {
+	filedUnder = ids[0]
+	err = util.RetryLinearJitter(wait.Context(), func() error {
 		cli, err := client.NewRedis(s.cfg.Output)
 		if err != nil {
 			return err
 		}
 		defer cli.Close()
 
-		err = checkpoint.UpdateCheckpoint(cli, localCheckpoint, ids)
+		keep := ids
+		cpName, cpRunId, err := checkpoint.GetCheckpointHash(cli, ids)
 		if err != nil {
-			s.logger.Errorf("update checkpoint : redis(%s), local(%s), ids(%v), error(%v)", s.cfg.Output.Address(), localCheckpoint, ids, err)
+			return err
 		}
-		return err
+		if cpName != "" && cpRunId != "" && cpRunId != ids[0] {
+			keep = []string{cpRunId, ids[0]}
+		}
+		err = checkpoint.UpdateCheckpoint(cli, localCheckpoint, keep)
+		if err != nil {
+			s.logger.Errorf("update checkpoint : redis(%s), local(%s), ids(%v), error(%v)", s.cfg.Output.Address(), localCheckpoint, keep, err)
+			return err
+		}
+		filedUnder = keep[0]
+		return nil
 	}, 5, time.Second*1, 0.3)
+	return filedUnder, err
 }
 
 func choseKeyInSlots(prefix string, slots *config.RedisSlots) string {
